@@ -443,10 +443,13 @@ PROPS['C17']['more_proof_modules'] += ['GeodeVerif.Proofs.C17c']
 PROPS['C17']['ntv2d_modules'] = ['GeodeVerif.Proofs.C17c']
 PROPS['C17']['needs_ntv2d'] = True
 PROPS['C17']['required_theorems'] += ['gen_ntv2_2d', 'gen_ntv2_2d_outside', 'gen_ntv2_2d_inside_never_raises', 'gen_ntv2_2d_forward',
-                                      'gen_ntv2_2d_reverse', 'gen_ntv2_2d_reverse_undoes_forward']
+                                      'gen_ntv2_2d_reverse', 'gen_ntv2_2d_reverse_undoes_forward', 'gen_contains', 'gen_finestStep',
+                                      'gen_finest', 'gen_cellOf', 'gen_cellOf_bounds', 'gen_finest_subgrid', 'gen_toSeconds']
 PROPS['C17']['rule'] = ('regenerated: transform.ntv2_2d is translated on every run (translator/ntv2d2lean.py -> GenF/Ntv2d.lean, the '
                         'interpolation result a parameter) and proved equal to the model (Proofs/C17c.lean: sign/unit of both shifts, '
-                        'error outside, never an error inside). ' + PROPS['C17']['rule'])
+                        'error outside, never an error inside); three slices of ntv2reader.interpolate_ntv2 likewise (GenF/NtvSel.lean: the sub-grid test, '
+                        'the finest-increment step, the row/column arithmetic with the bicubic->bilinear fall-back; gen_contains, gen_finest, gen_cellOf). '
+                        + PROPS['C17']['rule'])
 PROPS['C17']['trusted_base'] += ['translator/ntv2d2lean.py (isinstance test as a Boolean, shifts[i] as components of the interpolation '
                                  'result, `shifts[0] is None` as "no value")']
 PROPS['C15']['more_proof_modules'] = ['GeodeVerif.Proofs.C15b']
